@@ -268,6 +268,10 @@ def expected(i):
     sh, sv = [R(v) for v in (g("postscriptStemSnapH") or [])], [R(v) for v in (g("postscriptStemSnapV") or [])]
     if sh and sv:
         private.update(StemSnapH=sh, StdHW=sh[0], StemSnapV=sv, StdVW=sv[0])
+    if g("postscriptDefaultWidthX") is not None or g("postscriptNominalWidthX") is not None:
+        # explicit widths win (the widths are optimised only when both are absent); the absent one of the two takes its documented fallback (200 / 0)
+        private.update(defaultWidthX=R(g("postscriptDefaultWidthX")) if g("postscriptDefaultWidthX") is not None else 200,
+                       nominalWidthX=R(g("postscriptNominalWidthX")) if g("postscriptNominalWidthX") is not None else 0)
     e["_cff"] = {"version": "%d.%d" % (vM, vm), "Notice": g("trademark") or "", "Copyright": g("copyright") or "", "FullName": g("postscriptFullName") or "%s %s" % (pfam, psub), "FamilyName": pfam,
                  "Weight": g("postscriptWeightName"), "isFixedPitch": int(bool(g("postscriptIsFixedPitch"))), "ItalicAngle": float(ital), "UnderlinePosition": R(up), "UnderlineThickness": R(ut),
                  "FontMatrix": [1.0 / R(upm), 0, 0, 1.0 / R(upm), 0, 0], "private": private}
@@ -354,6 +358,8 @@ def check_extra(t, e, flavour, label, vf=False, subroutinized=True):
             got = getattr(priv, k, None)  # resolves CFF defaults that are not stored
             if got is None and subroutinized and k in TX_MAY_DROP:
                 continue
+            if subroutinized and k in ("defaultWidthX", "nominalWidthX"):
+                continue  # the subroutiniser (cffsubr/tx) recomputes the two widths
             if isinstance(v, float):
                 ok = got is not None and abs(got - v) < 1e-4 * max(1, abs(v))
             else:
